@@ -6,10 +6,10 @@
 package main
 
 import (
-	"bytes"
 	"context"
 	"database/sql"
 	"database/sql/driver"
+	"encoding/base64"
 	"encoding/hex"
 	"encoding/json"
 	"fmt"
@@ -131,8 +131,17 @@ type Case struct {
 	Otlp  []ORes `json:"otlp"`
 	Zip   []JV   `json:"zip"`
 	// rendering knobs (do not reach the model; the model is insensitive to them)
-	Sep       int     `json:"sep"`             // whitespace variant between elements
-	TrailNL   bool    `json:"trail_nl"`        // NDJSON: final newline
+	Sep     int  `json:"sep"`      // whitespace variant between elements
+	TrailNL bool `json:"trail_nl"` // NDJSON: final newline
+	// delivery of the request body to the parser: 0 = one io.Reader over the whole body, 1 = one byte per Read,
+	// 2 = 1..1500 bytes per Read (network-like), 3 = 1..64 bytes per Read; sizes drawn from a PRNG seeded with SegSeed
+	SegMode   int     `json:"seg_mode"`
+	SegSeed   int64   `json:"seg_seed"`
+	BodyLen   int     `json:"body_len"`
+	Reads     int     `json:"reads"`              // Read calls that returned data
+	SegHead   []int   `json:"seg_head"`           // sizes of the first 24 of them
+	BodyB64   string  `json:"body_b64,omitempty"` // with SPANS_DUMP_BODY=1: the exact request body and every segment size
+	SegAll    []int   `json:"seg_all,omitempty"`
 	Panic     string  `json:"panic,omitempty"` // the insert service panicked / lost rows on what the parser accepted
 	Err       bool    `json:"err"`
 	ErrMsg    string  `json:"errmsg"`
@@ -425,6 +434,47 @@ func readRows(rs [][]driver.Value) (out []RSpan, pan string) {
 	return out, ""
 }
 
+// ---------------------------------------------------------------- body delivery
+type segReader struct {
+	b     []byte
+	r     *rand.Rand
+	mode  int
+	reads int
+	head  []int
+	all   []int
+}
+
+func (s *segReader) Read(p []byte) (int, error) {
+	if len(s.b) == 0 {
+		return 0, io.EOF
+	}
+	n := len(s.b)
+	switch s.mode {
+	case 1:
+		n = 1
+	case 2:
+		n = 1 + s.r.Intn(1500)
+	case 3:
+		n = 1 + s.r.Intn(64)
+	}
+	if n > len(s.b) {
+		n = len(s.b)
+	}
+	if n > len(p) {
+		n = len(p)
+	}
+	copy(p, s.b[:n])
+	s.b = s.b[n:]
+	s.reads++
+	if len(s.head) < 24 {
+		s.head = append(s.head, n)
+	}
+	if len(s.all) < 100000 {
+		s.all = append(s.all, n)
+	}
+	return n, nil
+}
+
 // ---------------------------------------------------------------- running one case
 
 func collect(ch chan *wmodel.ParserResponse) (err error, spans []*wmodel.TempoSamples, tags []*wmodel.TempoTag) {
@@ -520,7 +570,14 @@ func run(c *Case, silence bool) {
 		panic("fmt " + c.Fmt)
 	}
 	c.Err, c.ErrMsg, c.Spans, c.Tags, c.Read, c.ReadAll, c.Panic = false, "", []TRow{}, []ARow{}, []RSpan{}, 0, ""
-	err, spans, tags := collect(parser(context.Background(), bytes.NewReader(body), nil))
+	// the parser gets its own copy of the body (what it retains must not alias our buffers) delivered in segments
+	sr := &segReader{b: append([]byte{}, body...), r: hx.Rand(c.SegSeed), mode: c.SegMode}
+	err, spans, tags := collect(parser(context.Background(), sr, nil))
+	c.BodyLen, c.Reads, c.SegHead = len(body), sr.reads, sr.head
+	c.BodyB64, c.SegAll = "", nil
+	if os.Getenv("SPANS_DUMP_BODY") != "" {
+		c.BodyB64, c.SegAll = base64.StdEncoding.EncodeToString(body), sr.all
+	}
 	c.Responses = len(spans)
 	if err != nil {
 		c.Err, c.ErrMsg = true, err.Error()
@@ -1073,10 +1130,63 @@ func genBig(r *rand.Rand, c *Case) {
 	c.Otlp = []ORes{res}
 }
 
+// n Zipkin spans, each with a shared blob tag of blobLen bytes (0: small spans): bodies beyond the 64 KiB read
+// buffers of jx.Decoder / bufio.Scanner, i.e. consumed in several Reads whatever the delivery
+func genFat(r *rand.Rand, c *Case, fmtName string, n int, blobLen int, segMode int) {
+	c.Fmt, c.Class, c.SegMode = fmtName, fmt.Sprintf("%s-large-%dx%d", fmtName, n, blobLen), segMode
+	blob := strings.Repeat("x", blobLen)
+	c.Zip = []JV{}
+	for i := 0; i < n; i++ {
+		tags := JV{T: "o", O: []JKV{f("http.method", js("GET")), f("i", js(strconv.Itoa(i)))}}
+		if blobLen > 0 {
+			tags.O = append(tags.O, f("blob", js(blob)))
+		}
+		fs := []JKV{f("traceId", js(genHex(r, 32))), f("id", js(genHex(r, 16))), f("name", js("operation-"+strconv.Itoa(i))),
+			f("timestamp", ji(1727700000000000+int64(i))), f("duration", ji(1000+int64(i))),
+			f("localEndpoint", jo(f("serviceName", js("bulk")))), f("tags", tags)}
+		if i > 0 && r.Intn(2) == 0 {
+			fs = append(fs, f("parentId", js(genHex(r, 16))))
+		}
+		r.Shuffle(len(fs), func(a, b int) { fs[a], fs[b] = fs[b], fs[a] })
+		c.Zip = append(c.Zip, JV{T: "o", O: fs})
+	}
+	c.Sep, c.TrailNL = r.Intn(4), r.Intn(2) == 0
+}
+
 func gen(r *rand.Rand, id int, depth int) Case {
 	c := Case{ID: id, Otlp: []ORes{}, Zip: []JV{}}
-	if id == 7 {
+	c.SegSeed = r.Int63()
+	switch k := r.Intn(100); {
+	case k < 35:
+		c.SegMode = 0
+	case k < 45:
+		c.SegMode = 1
+	case k < 85:
+		c.SegMode = 2
+	default:
+		c.SegMode = 3
+	}
+	switch id {
+	case 7:
 		genBig(r, &c)
+		return c
+	case 8: // > 64 KiB array body, network-like delivery
+		genFat(r, &c, "zarr", 40, 2000, 2)
+		return c
+	case 9: // > 128 KiB array body through ONE reader (the decoder's 64 KiB buffer is refilled twice)
+		genFat(r, &c, "zarr", 80, 2000, 0)
+		return c
+	case 10:
+		genFat(r, &c, "znd", 80, 2000, 2)
+		return c
+	case 11: // hundreds of small spans
+		genFat(r, &c, "zarr", 320, 0, 0)
+		return c
+	case 12:
+		genFat(r, &c, "znd", 320, 0, 3)
+		return c
+	case 13:
+		genFat(r, &c, "zarr", 320, 0, 2)
 		return c
 	}
 	if r.Intn(2) == 0 {
